@@ -3,10 +3,12 @@
    Covered by theorems: the supply lane's queues, the supply uplink's byte buffer, and the ad hoc command
    output (CommandOutput + CmdChannelWriter) under every order of appends, channel openings and write
    completions.  Checked by correspondence + oracle only (partial): the command part of the real
-   external_links_task behind stalled targets.  Not modelled: the supply uplink's re-queueing inside the
+   external_links_task behind stalled targets.  The agent's side of the command channel (commander identifiers,
+   Model/Commanders.v) is covered by theorems and tied to a real agent by h_agent/c14a.  Not modelled: the supply uplink's re-queueing inside the
    write task (Uplinks), and the dispatch of command envelopes to command-lane handlers (read task +
    agent model loop). *)
 From SwimV Require Import Model.NoCoalesce Proofs.CodecProofs Proofs.NoCoalesceProofs.
+From SwimV Require Model.Commanders Proofs.CommandersProofs.
 Open Scope N_scope.
 
 (* supply lane: for every sequence of pushes, sync requests and writes, the events written so far
@@ -66,3 +68,23 @@ Example C14_nonvacuous :
   let s := crun [CAppend 0 1 false; COpen; CAppend 0 2 true; CAppend 1 3 false; CAppend 0 4 true; CDone; CDone] in
   bodies (cs_stream s) = [1; 4; 3] /\ co_writer (cs_c s) <> None.
 Proof. vm_compute. split; [reflexivity|discriminate]. Qed.
+
+(* the agent's side of the command channel: whatever commanders an agent creates and whenever (in on_start or later),
+   and however it mixes sends through them with ad hoc sends, the messages it writes, resolved as the runtime resolves
+   them (a Register binds an identifier, a Registered message goes where its identifier points), are each command once,
+   in order, to the lane it was meant for, with its overwrite flag *)
+Theorem C14_commands_reach_their_targets : forall ops ms,
+  Commanders.arun Commanders.agent0 ops = Some ms -> Commanders.resolve [] ms = Some (Commanders.intended ops).
+Proof. exact CommandersProofs.commands_reach_their_targets. Qed.
+
+(* one address, one identifier, for the agent's whole life: an identifier once given stays with its address and no other
+   address ever gets it, however many more commanders are requested *)
+Theorem C14_commander_identifiers_are_stable : forall c addrs c',
+  (forall a1 a2 i, Commanders.alookup a1 (Commanders.assigned c) = Some i ->
+                   Commanders.alookup a2 (Commanders.assigned c) = Some i -> a1 = a2) ->
+  (forall a i, Commanders.alookup a (Commanders.assigned c) = Some i -> i < Commanders.next_id c) ->
+  CommandersProofs.ids_after c addrs = Some c' ->
+  (forall a i, Commanders.alookup a (Commanders.assigned c) = Some i -> Commanders.alookup a (Commanders.assigned c') = Some i) /\
+  (forall a1 a2 i, Commanders.alookup a1 (Commanders.assigned c') = Some i ->
+                   Commanders.alookup a2 (Commanders.assigned c') = Some i -> a1 = a2).
+Proof. exact CommandersProofs.identifiers_are_stable. Qed.
